@@ -257,6 +257,63 @@ def run(repo, rep):
     rep.check(kw.get("dilation_xy") == "kernel.dilation", "C07-f", f"{WC}:encode_weight_and_scale_tensor", "dilation_xy = kernel.dilation (PointXY: x, y)", str(kw.get("dilation_xy")))
     rep.floor("C07-f", 3)
 
+    # ---------------------------------------------------------------- e': output buffer bound, zero-run cursor
+    me = enc.body("mlw_encode")
+    bs = [n for n in enc.walk(me) if n.get("kind") == "VarDecl" and n.get("name") == "bitbuf_size" and n.get("inner")]
+    if len(bs) != 1:
+        raise AnalysisError("mlw_encode: bitbuf_size declaration not found")
+    from ..cast import CEvalError, c_eval
+
+    short = None
+    try:
+        for nvals in (0, 1, 7, 8, 1000, 65536, 1 << 20):
+            v = c_eval(bs[0]["inner"][-1], {"inbuf_size": nvals})
+            if v < 2 * nvals + 1024 and short is None:
+                short = (nvals, v)
+    except CEvalError as e_:
+        raise AnalysisError(f"bitbuf_size not evaluable: {e_}")
+    rep.check(short is None, "C07-e", f"{ENC}:mlw_encode", "the output bit buffer holds at least 2 bytes per weight + 1024 (palette-mode GRC coding of out-of-palette weights needs more than the 9 raw bits)",
+              f"`{enc.text(bs[0]['inner'][-1])}` gives {short[1] if short else ''} bytes for {short[0] if short else ''} weights: bitbuf_putbit (its assert is compiled out by NDEBUG) then writes past the allocation")
+    # zero runs: the first slice of a section codes len + 1 runs (encode_slice: z_nvalues = nvalues + new_palette), every later slice
+    # len runs starting one past its position, so that the runs consumed by consecutive slices are contiguous
+    es = enc.body("encode_slice")
+    zn = [n for n in enc.walk(es) if n.get("kind") == "VarDecl" and n.get("name") == "z_nvalues" and n.get("inner")]
+    sec = enc.body("encode_section")
+    zb = [n for n in enc.walk(sec) if n.get("kind") == "VarDecl" and n.get("name") == "zrun_buf" and n.get("inner")]
+    if len(zn) != 1 or len(zb) != 1:
+        raise AnalysisError("zero-run cursor declarations (z_nvalues / zrun_buf) not found")
+    ok = True
+    why = ""
+    try:
+        for newpal in (0, 1):
+            cnt = c_eval(zn[0]["inner"][-1], {"nvalues": 10, "new_palette": newpal}) - 10
+            txt = enc.text(zb[0]["inner"][-1]).replace(" ", "")
+            m_ = re.match(r"p->use_zero_runs\?zrun_values\+(.*):0$", txt)
+            if not m_:
+                raise AnalysisError(f"zrun_buf initialiser not recognised: {txt}")
+            off_txt = m_.group(1)
+            # offset relative to pos, evaluated with a tiny expression grammar: pos, (!new_palette), integers, +
+            off = 0
+            for term in off_txt.split("+"):
+                if term == "pos":
+                    continue
+                elif term in ("(!new_palette)", "!new_palette"):
+                    off += 0 if newpal else 1
+                elif term in ("new_palette", "(new_palette)"):
+                    off += newpal
+                elif term.isdigit():
+                    off += int(term)
+                else:
+                    raise AnalysisError(f"zrun_buf offset term not recognised: {term}")
+            # contiguity: (offset of a later slice) + (its count) must equal 1 + len, (offset of the first) + (its count) = len + 1
+            if off + cnt != 1:
+                ok = False
+                why = f"with new_palette={newpal} the slice starts {off} past its position and codes len+{cnt} runs"
+    except CEvalError as e_:
+        raise AnalysisError(f"z_nvalues not evaluable: {e_}")
+    rep.check(ok, "C07-d", f"{ENC}:encode_section", "zero runs consumed by consecutive slices of a section are contiguous (first slice len + 1 runs from its position, later slices len runs from one past it)",
+              why + ": a later slice re-emits its predecessor's last zero run and drops its own last one")
+
     # ---------------------------------------------------------------- h: conversion flags of the exported entries
     n_conv = 0
     for name, d in mod.functions.items():
@@ -280,4 +337,4 @@ def run(repo, rep):
     rep.floor("C07-h", 1)
     from . import c08
 
-    rep.run_borrowed(c08, {"C08-h": "C07-g"}, repo)
+    rep.run_borrowed(c08, {"C08-h": "C07-g", "C08-c": "C07-g"}, repo)
